@@ -863,6 +863,20 @@ class C08Session:
                 elif hasattr(got, "expand"):
                     got *= 2
             out["permute"] = str(want)
+            # the same on one object of the term (Obj is a Container as well)
+            objs = t.objects
+            o = objs[st["pick"] % len(objs)]
+            osym = o.sympy
+            owant = osym
+            for p, q in perms:
+                owant = owant.xreplace({p: q, q: p})
+            og = o.permute(*perms).sympy
+            if og != owant and not self.same_value_all_indices(og, owant):
+                self.viol("rename", "b-permute", f"Obj.permute"
+                          f"{[(str(p), str(q)) for p, q in perms]} of {osym} gave {og}, "
+                          f"sequential transpositions give {owant}")
+            if o.sympy != osym:
+                self.viol("rename", "c-alias", f"Obj.permute changed the object {osym}")
         elif how in ("sc", "gen"):
             first = None
             for attempt in range(2):
